@@ -865,6 +865,39 @@ func c07_5(c *core.Ctx, p *core.Prog) {
 				first = t
 			}
 		}
+		// the default arm may consult a lookup helper keyed by the payload type (`slot, ok := pending.slotFor(pt)`):
+		// the `ok` edge is taken for the types the helper knows only — provided the helper's own default (every
+		// payload test of its own false) answers false — so it is an arm, not part of the default
+		switched := first.Cond.(*ssa.BinOp).X
+		var slotCalls []*ssa.Call
+		for _, b := range fn.Blocks {
+			iff := core.IfOf(b)
+			if iff == nil {
+				continue
+			}
+			ex, ok := iff.Cond.(*ssa.Extract)
+			if !ok || !isBool(ex.Type()) {
+				continue
+			}
+			cl, ok := ex.Tuple.(*ssa.Call)
+			if !ok {
+				continue
+			}
+			h := cl.Call.StaticCallee()
+			if h == nil || len(h.Blocks) == 0 || !core.InRepo(core.FnPkgPath(h)) {
+				continue
+			}
+			takes := false
+			for _, a := range cl.Call.Args {
+				if a == switched || core.SameValue(a, switched) {
+					takes = true
+				}
+			}
+			if takes && lookupDefaultsToFalse(h, ex.Index) {
+				cut[core.Edge{From: b, To: b.Succs[0]}] = true
+				slotCalls = append(slotCalls, cl)
+			}
+		}
 		// the loop header: the block of the range induction phi
 		var loopPhi *ssa.Phi
 		core.EachInstr(fn, func(i ssa.Instruction) {
@@ -985,6 +1018,61 @@ func c07_5(c *core.Ctx, p *core.Prog) {
 				}
 			}
 			if retOnly {
+				dup++
+			}
+		}
+		// slot form: the record is kept through a pointer a lookup helper hands out (`*slot = record`), and every such
+		// store is dominated by `*slot != nil → return error` on the same pointer
+		for _, cl := range slotCalls {
+			var slot ssa.Value
+			for _, r := range core.Referrers(cl) {
+				if ex, ok := r.(*ssa.Extract); ok {
+					if pt, ok := ex.Type().(*types.Pointer); ok {
+						if _, ok := pt.Elem().(*types.Pointer); ok {
+							slot = ex
+						}
+					}
+				}
+			}
+			if slot == nil {
+				continue
+			}
+			okAll, any := true, false
+			for _, r := range core.Referrers(slot) {
+				st, ok := r.(*ssa.Store)
+				if !ok || st.Addr != slot {
+					continue
+				}
+				any = true
+				guarded := false
+				for _, b := range fn.Blocks {
+					iff := core.IfOf(b)
+					if iff == nil {
+						continue
+					}
+					cmp, ok := iff.Cond.(*ssa.BinOp)
+					if !ok || cmp.Op != token.NEQ || !core.IsNilConst(cmp.Y) {
+						continue
+					}
+					ld, ok := cmp.X.(*ssa.UnOp)
+					if !ok || ld.Op != token.MUL || ld.X != slot {
+						continue
+					}
+					retOnly := true
+					if loopPhi != nil {
+						if ok, _ := (core.PathQuery{Fn: fn, From: b.Succs[0].Instrs[0], To: loopPhi}).Exists(); ok || b.Succs[0] == loopPhi.Block() {
+							retOnly = false
+						}
+					}
+					if retOnly && core.GuardedBy(iff, false, st) {
+						guarded = true
+					}
+				}
+				if !guarded {
+					okAll = false
+				}
+			}
+			if any && okAll {
 				dup++
 			}
 		}
@@ -1356,4 +1444,40 @@ func c07_6(c *core.Ctx, p *core.Prog) {
 	if n < 3 {
 		c.Undecided("count", "?", "", fmt.Sprintf("expected 3 decoder-side RelatedData constructors, found %d", n))
 	}
+}
+
+// lookupDefaultsToFalse: h switches over a payload type; on the path on which none of its payload tests holds,
+// every return gives the constant false for result idx ("no such slot").
+func lookupDefaultsToFalse(h *ssa.Function, idx int) bool {
+	cut := map[core.Edge]bool{}
+	n := 0
+	for _, b := range h.Blocks {
+		iff := core.IfOf(b)
+		if iff == nil {
+			continue
+		}
+		cmp, ok := iff.Cond.(*ssa.BinOp)
+		if !ok || cmp.Op != token.EQL || core.TypeName(cmp.X.Type()) != "ArrowPayloadType" {
+			continue
+		}
+		cut[core.Edge{From: b, To: b.Succs[0]}] = true
+		n++
+	}
+	if n == 0 {
+		return false
+	}
+	okAll, any := true, false
+	for _, r := range core.Returns(h) {
+		if reach, _ := (core.PathQuery{Fn: h, To: r, CutEdges: cut}).Exists(); !reach {
+			continue
+		}
+		any = true
+		if idx >= len(r.Results) {
+			return false
+		}
+		if b, isB := core.ConstBool(r.Results[idx]); !isB || b {
+			okAll = false
+		}
+	}
+	return any && okAll
 }
